@@ -36,7 +36,8 @@ enum Rule {
 enum Fault {
     Status500,
     StatusInvalidJson,
-    StatusFailsValidation,
+    /// a well-formed JSON answer that cannot be read as a status document (see `unreadable_status`)
+    StatusShape(u8),
     Acquire500,
     AcquireMalformed,
     Attest500,
@@ -210,11 +211,9 @@ fn start_host(sh: Arc<Shared>) -> MockHost {
                     model.fault = None;
                     return Action::Reply(vec![simple_response(200, &[("Content-Type", "application/json")], b"{ not json")]);
                 }
-                Some(Fault::StatusFailsValidation) => {
+                Some(Fault::StatusShape(n)) => {
                     model.fault = None;
-                    let mut d = model.status_doc();
-                    d.as_object_mut().unwrap().remove("secureChannelState");
-                    d.as_object_mut().unwrap().remove("secureChannelEnabled");
+                    let d = unreadable_status(model.status_doc(), n);
                     return Action::Reply(vec![simple_response(200, &[("Content-Type", "application/json")], d.to_string().as_bytes())]);
                 }
                 _ => {}
@@ -405,7 +404,7 @@ fn wait_parked(sh: &Shared) -> bool {
     while !g.parked {
         let (ng, to) = sh.cv.wait_timeout(g, Duration::from_millis(200)).unwrap();
         g = ng;
-        if to.timed_out() && t.elapsed() > Duration::from_secs(6) {
+        if to.timed_out() && t.elapsed() > Duration::from_secs(30) {
             return false;
         }
     }
@@ -425,6 +424,45 @@ struct HistOut {
     problems: Vec<(String, String)>, // of the last step
     canon: String,
     polls: u64,
+}
+
+const N_SHAPES: u8 = 11;
+/// Answers that are JSON but cannot be read as a status document: the field that carries the channel
+/// state for the document's protocol version (1.0: secureChannelState in {Disabled, Wireserver,
+/// WireserverAndImds}; 2.0: secureChannelEnabled) is missing or unusable, a mandatory field is missing, or
+/// the answer is not an object. Everything else (key id, rules) is what the host would otherwise send.
+fn unreadable_status(mut d: Value, shape: u8) -> Value {
+    let o = d.as_object_mut().unwrap();
+    match shape {
+        0 => {
+            o.remove("secureChannelState");
+            o.remove("secureChannelEnabled");
+        }
+        1 | 2 => {
+            o.insert("version".into(), json!("1.0"));
+            o.remove("secureChannelState");
+            o.insert("secureChannelEnabled".into(), json!(shape == 1));
+        }
+        3 | 4 | 5 => {
+            o.insert("version".into(), json!("2.0"));
+            o.remove("secureChannelEnabled");
+            o.insert("secureChannelState".into(), json!(["Wireserver", "Disabled", "WireserverAndImds"][(shape - 3) as usize]));
+        }
+        6 => {
+            o.insert("version".into(), json!("1.0"));
+            o.remove("secureChannelEnabled");
+            o.insert("secureChannelState".into(), json!("Bogus"));
+        }
+        7 => {
+            o.remove("version");
+        }
+        8 => {
+            o.remove("authorizationScheme");
+        }
+        9 => return json!([d]),
+        _ => return json!("Wireserver"),
+    }
+    d
 }
 
 fn ev_json(e: &Ev) -> Value {
@@ -461,7 +499,7 @@ fn run_history(sh: &Arc<Shared>, host: &MockHost, hist: &[Ev]) -> HistOut {
         let model = sh.model.lock().unwrap().clone();
         let after = agent.observe();
         let fault_fired = fault_armed.is_some() && model.fault.is_none();
-        let status_fault = fault_fired && matches!(fault_armed, Some(Fault::Status500) | Some(Fault::StatusInvalidJson) | Some(Fault::StatusFailsValidation));
+        let status_fault = fault_fired && matches!(fault_armed, Some(Fault::Status500) | Some(Fault::StatusInvalidJson) | Some(Fault::StatusShape(_)));
         if last {
             let ap = sh.attest_problems.lock().unwrap().clone();
             for p in ap {
@@ -567,7 +605,7 @@ fn main() {
             alphabet.push(Ev::SetRule(ep, *r));
         }
     }
-    for f in [Fault::Status500, Fault::StatusInvalidJson, Fault::StatusFailsValidation, Fault::Acquire500, Fault::AcquireMalformed, Fault::Attest500] {
+    for f in [Fault::Status500, Fault::StatusInvalidJson, Fault::StatusShape(0), Fault::StatusShape(3), Fault::Acquire500, Fault::AcquireMalformed, Fault::Attest500] {
         alphabet.push(Ev::Fault(f));
     }
 
@@ -674,6 +712,38 @@ fn main() {
             }
         }
     }
+    // every unreadable answer shape after each of these base histories (must change nothing)
+    let bases: Vec<Vec<Ev>> = vec![
+        vec![Ev::V1(1)],
+        vec![Ev::V1(2)],
+        vec![Ev::V1(0)],
+        vec![Ev::V2Enabled(true)],
+        vec![Ev::V2Enabled(true), Ev::SetRule(0, Rule::Enforce)],
+        vec![Ev::V2Enabled(true), Ev::SetRule(1, Rule::Audit)],
+        vec![Ev::V2Enabled(false)],
+        vec![Ev::V1(1), Ev::Rotate],
+    ];
+    let mut shape_histories = 0u64;
+    let mut n = 0usize;
+    for b in &bases {
+        for shape in 0..N_SHAPES {
+            n += 1;
+            if n % wn != wi {
+                continue;
+            }
+            let mut h2 = b.clone();
+            h2.push(Ev::Fault(Fault::StatusShape(shape)));
+            let o = run_history(&sh, _host.as_ref().unwrap(), &h2);
+            transitions += 1;
+            shape_histories += 1;
+            polls += o.polls;
+            let case = json!({"history": h2.iter().map(ev_json).collect::<Vec<_>>()});
+            for (sig, what) in &o.problems {
+                res.violation(sig, what, case.clone());
+            }
+        }
+    }
+    res.cov("unreadable_answer_shape_histories", shape_histories);
     for p in world::take_panics() {
         res.violation("panic", &p, json!({"note": "panic during exploration"}));
     }
@@ -684,7 +754,7 @@ fn main() {
     res.cov("max_depth", maxd as u64);
     res.cov("wall_cap_hit", capped);
     res.cov("exhaustive", !capped);
-    res.cov("rule", format!("BFS over histories of host events (protocol 1.0 states, 2.0 enabled flag, per-endpoint rule item in {:?} for wireserver/imds/hostga, rotate = host forgets its latch, one-shot faults at status/acquire/attest, no-op poll; {} events) to depth {depth}, one real agent poll per event in lock-step, deduplicated on (host model, agent getters, key directory, kernel policy map); each history replayed from scratch on the real KeyKeeper with a paused clock", rule_vals, alphabet.len()));
+    res.cov("rule", format!("BFS over histories of host events (protocol 1.0 states, 2.0 enabled flag, per-endpoint rule item in {:?} for wireserver/imds/hostga, rotate = host forgets its latch, one-shot faults at status/acquire/attest, no-op poll; {} events) to depth {depth}, plus each of 11 unreadable answer shapes (channel-state field of the document's version missing or unusable, mandatory field missing, not an object) after 8 base histories, one real agent poll per event in lock-step, deduplicated on (host model, agent getters, key directory, kernel policy map); each history replayed from scratch on the real KeyKeeper with a paused clock", rule_vals, alphabet.len()));
     res.assume("distinct rule contents have distinct ids (host contract; replacement is keyed on the id)");
     res.assume("mode of an endpoint: protocol 2.0 = mode of its rule item, disabled when absent, HostGAPlugin follows WireServer; protocol 1.0 = never disabled");
     std::process::exit(res.finish());
